@@ -66,8 +66,8 @@ class VLoop(asyncio.SelectorEventLoop):
         nxt = self._next_timer()
         if self._iter_limit is not None and self.iters >= self._iter_limit:
             self.stop_reason = 'iter-cap'
-            self._stopping = True
-        elif self._ready:
+            self._stopping = True          # this iteration still runs (and may advance the clock)
+        if self._ready:
             self._stall += 1
             if self._stall > SPIN_LIMIT and nxt is not None and nxt > self._vt:
                 if self._vt_limit is not None and nxt > self._vt_limit:
@@ -83,11 +83,11 @@ class VLoop(asyncio.SelectorEventLoop):
             if nxt is None:
                 if self._vt_limit is not None and self._vt_limit != float('inf'):
                     self._vt = max(self._vt, self._vt_limit)
-                self.stop_reason = 'idle'
+                self.stop_reason = self.stop_reason or 'idle'
                 self._stopping = True
             elif self._vt_limit is not None and nxt > self._vt_limit:
                 self._vt = max(self._vt, self._vt_limit)
-                self.stop_reason = 'vt-limit'
+                self.stop_reason = self.stop_reason or 'vt-limit'
                 self._stopping = True
             elif nxt > self._vt:
                 self._vt = nxt
